@@ -221,7 +221,9 @@ def copy_independence(ctx):
     combos = [(m,) for m in muts] + list(itertools.combinations(muts, 2))
     for target in ("copy", "original"):
         for combo in combos:
-            orig = cm.Config(version=2.0, user_agent="ua", serialize_handlers={tuple: str})
+            # every field differs from its default, so that a copy which silently falls back to a default shows
+            orig = cm.Config(version=1.0, content_type="application/json", user_agent="ua", use_jsonclass=False,
+                             serialize_method="_ser", ignore_attribute="_ign", serialize_handlers={tuple: str})
             orig.classes.add(dict, "Base")
             orig.classes.add(list, "Other")
             cp = orig.copy()
